@@ -78,9 +78,11 @@ def floor_divide(
     if not x2.isconstant():
         raise numpoly.FeatureNotSupported(DIVIDE_ERROR_MSG)
     x2 = x2.tonumpy()
-    dtype = numpy.common_type(x1, x2)
-    if x1.dtype == x2.dtype == "int64":
-        dtype = "int64"
+    if x1.dtype.kind in "biu" and x2.dtype.kind in "biu":
+        # integer operands keep an integer result, like numpy.floor_divide
+        dtype = numpy.result_type(x1.dtype, x2.dtype, numpy.int8)
+    else:
+        dtype = numpy.common_type(x1, x2)
     no_output = out is None
     if out is None:
         out = numpoly.ndpoly(
